@@ -582,7 +582,7 @@ def shuffled_stream(check: Check, ci, rule: str):
   rs_calls = [c for _, c in ff.calls() if ff.ext(c.func) == 'numpy.random.RandomState']
   rs = [d for ds in ff.rd.defs_at.values() for d in ds if isinstance(d.value, ast.Call) and ff.ext(d.value.func) == 'numpy.random.RandomState']
   seeded = (len(rs_calls) == 1 and len(rs) == 1 and bool(rs[0].value.args) and ff.param_of(rs[0].value.args[0]) == seedp and
-            wmean._loop_of(ff, rs[0].node.ast) is None and not guards_of(ff, rs[0].node.ast))
+            wmean._loop_of(ff, rs[0].node.ast) is None and not guards_of(ff, rs[0].node.ast, implied=False))
   # the seed parameter is not rewritten or tested for truthiness (seed 0 is a seed)
   seed_tests = [n for n in ff.cfg.nodes if n.kind in ('if', 'while') and any(isinstance(x, ast.Name) and x.id == seedp for x in ast.walk(n.ast.test))]
   seed_tests += [x for x in ast.walk(sc.node) if isinstance(x, (ast.IfExp, ast.BoolOp)) and any(
